@@ -44,3 +44,29 @@ Example c20_example :
   let s4 := fst (st_step s3 [12; 8]) in
   snd (st_step s4 [13; 2; 4; 0; 0]) = [-5; 7] /\ snd (st_step (fst (st_step s4 [13; 2; 4; 0; 0])) [13; 5; 4; 0; 0]) = [-5; 8].
 Proof. vm_compute. split; reflexivity. Qed.
+
+(* "Wait returns for every caller" also rests on the write loop never abandoning a batch: Model/Maint.v is the loop of
+   Store.maintenance (wait for an event, collect the batch, take the policy lock, drainWrite).  For every schedule of
+   senders, maintenance steps and other holders of the policy lock: whenever the loop waits for the next event its buffer
+   is empty, and a marker in the buffer is answered by the very next step that finds the lock free. *)
+From Verif Require Import Model.Maint Proof.MaintP Gen.Consts.
+Theorem c20_batch_never_abandoned : forall ops,
+  let s := fold_left m_step ops (m_init true) in
+  (m_pc s = MWaitEvent -> m_buf s = []) /\
+  (m_pc s = MAtLock -> forall w, In w (m_buf s) -> 0 < w -> In w (m_answered (m_step s (MStep false)))).
+Proof. exact batch_never_abandoned. Qed.
+Print Assumptions c20_batch_never_abandoned.
+
+(* the shape that theorem is about is the write loop in the source of this run: the collected batch is followed,
+   unconditionally, by a blocking policyMu.Lock(), drainWrite(), Unlock() *)
+Theorem c20_write_loop_source_shape : c_write_loop_shape = true.
+Proof. exact write_loop_shape_as_written. Qed.
+Print Assumptions c20_write_loop_source_shape.
+
+(* a loop that gives up on a busy lock (seeded change C20e) leaves waiter 7 waiting for ever when nothing else is written *)
+Theorem c20_give_up_refuted :
+  let s := fold_left m_step [MSend 0; MSend 7; MStep false; MStep true] (m_init false) in
+  m_pc s = MWaitEvent /\ m_queue s = [] /\ m_buf s = [0; 7] /\ m_answered s = [] /\
+  (forall helds, m_answered (fold_left m_step (map MStep helds) s) = []).
+Proof. exact give_up_refuted. Qed.
+Print Assumptions c20_give_up_refuted.
